@@ -27,6 +27,10 @@ func init() {
 		Families: func(c *mon.Config) []mon.Family {
 			return []mon.Family{
 				{Name: "cold-start", N: 1, Serial: true, Run: func(w *mon.W, _ int) {
+					if !coldFirst(w, coldPick(coldRankSelect(), "Select32", "Select32R64", "IndexSelect32", "IndexSelect32R64")) {
+						return
+					}
+					defer coldLast(w, coldPick(coldRankSelect(), "Select32", "Select32R64", "IndexSelect32", "IndexSelect32R64"))
 					var pos []int32
 					var cov c02Cov
 					for _, b := range [][]uint64{{^uint64(0)}, {}, {0}, {^uint64(0), ^uint64(0)}, {0, 0}, {1 << 63}, {1}} {
@@ -41,7 +45,7 @@ func init() {
 				{Name: "gaps", N: c.Pick(10000, 2000000), Run: c02Gaps},
 				{Name: "zoo", Env: 8, N: c.Pick(20000, 3000000), Run: c02Zoo},
 				{Name: "zoo-long", Env: 4, N: c.Pick(400, 100000), Run: c02ZooLong},
-				{Name: "dense-long", Env: 2, N: c.Pick(6, 300), Run: c02DenseLong},
+				{Name: "dense-long", Env: 3, N: c.Pick(6, 300), Run: c02DenseLong},
 				{Name: "huge-sparse", N: c.Pick(1, 6), Run: c02HugeSparse},
 			}
 		},
@@ -221,6 +225,10 @@ func c02Check(w *mon.W, words []uint64, pos *[]int32, cov *c02Cov) bool {
 		w.Op = "IndexSelect32(after in-place update)"
 		s1 := bitmap.IndexSelect32(words)
 		w.Eval(2)
+		if len(r2) != nw+1 {
+			w.Fail("Index/shape", d(mon.D{"what": "rank index returned by IndexSelect32R64 for the updated bitmap", "len_ridx": len(r2), "expected_ridx": nw + 1}))
+			return false
+		}
 		var c int32
 		var exp []int32
 		for i := 0; i < nw*64; i++ {
